@@ -2,7 +2,7 @@
 validated instant by instant by Trace_Solver.tla.  One campaign serves C01-C03, C11, C13-C17 (each failing clause
 is attributed to the property that states it), cached per (gearpy sources, specification, tier, seed)."""
 from __future__ import annotations
-import fcntl, glob, hashlib, json, os, random, time
+import fcntl, glob, hashlib, json, os, random, sys, time
 from . import solver_rec, solver_gen
 from .core import VERIF, SPEC, repo_hash, Verdict, finish, Machinery, import_repo, mc_cached, add_mc
 from .tv import validate
@@ -204,11 +204,34 @@ def _crafted_traces():
     return out
 
 
+def repo_test_traces(tier):
+    """Executions of the repository's OWN solver test (tests/test_solver, hypothesis-generated powertrains of 7..40 elements, a first
+    run with a stop condition and a continuation with a multiplied time step), recorded by a pytest plugin that lives in /verif
+    (harness/repo_trace_plugin.py) and validated like every other trace."""
+    import subprocess, tempfile
+    from .core import REPO
+    n = 4 if tier == 'quick' else 40
+    fd, out = tempfile.mkstemp(prefix='verif-repotrace-', suffix='.ndjson')
+    os.close(fd)
+    env = dict(os.environ, VERIF_REPO_TRACE_OUT=out, VERIF_REPO_TRACE_MAX=str(n), VERIF_REPO_TRACE_MAX_INSTANTS='70' if tier == 'quick' else '150',
+               PYTHONPATH=VERIF + os.pathsep + os.environ.get('PYTHONPATH', ''), PYTHONHASHSEED='0')
+    try:
+        p = subprocess.run([sys.executable, '-m', 'pytest', '-q', '-p', 'no:cacheprovider', '-p', 'harness.repo_trace_plugin', '-x',
+                            'tests/test_solver/test_solver.py::TestSolverRun::test_method', '-W', 'ignore'],
+                           cwd=REPO, env=env, capture_output=True, text=True, timeout=1800)
+        traces = [json.loads(l) for l in open(out)] if os.path.getsize(out) else []
+    finally:
+        os.unlink(out)
+    if not traces:
+        raise Machinery('the repository test run under the tracing plugin recorded nothing:\n' + (p.stdout + p.stderr)[-1500:])
+    return traces
+
+
 def gen_traces(tier, seed):
     from concurrent.futures import ProcessPoolExecutor
     n = 260 if tier == 'quick' else 4000
     with ProcessPoolExecutor(max_workers=min(16, os.cpu_count() or 4)) as ex:
-        return list(ex.map(_one_trace, [(seed, i) for i in range(n)], chunksize=4)) + _crafted_traces() + _exact_traces()
+        return list(ex.map(_one_trace, [(seed, i) for i in range(n)], chunksize=4)) + _crafted_traces() + _exact_traces() + repo_test_traces(tier)
 
 
 def campaign(tier, seed):
